@@ -31,7 +31,10 @@ RULE_ADDED = (
               'Also: areas of zeros / 0xff / zeros but one byte; images with the same code as '
               "another; the same file name in other directories and prefix names; each image's "
               'message written into the same output file in turn; repeated signing runs in place; a '
-              'third of the shards under python -O ')
+              'third of the shards under python -O '
+              ' '
+              'Round 8: image names holding glob / shell / format metacharacters next to a sibl'
+              'ing they would match as patterns. ')
 RULE = RULE + " " + RULE_ADDED.strip()
 ASSUMPTIONS = [
     "own Intel-HEX writer (pv/gen/ihex.py); areas do not overlap",
@@ -354,7 +357,7 @@ def run_shard(spec, acc):
     env.setup()
     install_hook()
     rng = random.Random(spec["seed"])
-    tmpdir = tempfile.mkdtemp(prefix="pv-c19-")
+    tmpdir = env.mkdtemp("c19", spec.get("shard", spec.get("seed", 0)) % 2 == 1)
     state = {"pubs": set()}
     try:
         for i in range(spec["n"]):
@@ -372,7 +375,7 @@ def run_shard(spec, acc):
 def replay(case, acc):
     env.setup()
     install_hook()
-    tmpdir = tempfile.mkdtemp(prefix="pv-c19-")
+    tmpdir = env.mkdtemp("c19")
     try:
         run_case(acc, case["seed"], tmpdir, {"pubs": set()})
     finally:
